@@ -6,7 +6,7 @@
    spec_case : what the implementation did satisfies the specification, formulated
                independently of the model (layout as a sum, provenance from the
                generator's own knowledge, last-OPT by a forward fold). *)
-From Sdns Require Export Common.Base Gen.C15 C15.Model C15.Concrete.
+From Sdns Require Export Common.Base Gen.C15 C15.Model C15.Concrete C15.Layouts.
 Open Scope N_scope.
 
 (* compact forms the drivers print; package paths are given once per case *)
@@ -47,9 +47,10 @@ Inductive case :=
 | CaseName (s : list N) (buflen off : N) (cm : option (list (list N * N))) (compress : bool)
            (ok : bool) (off1 : N) (written : list N) (added : list (list N * N))
   (* a message of step-decomposable records through TryPack (dirty pool) and the library:
-     handled?, library packs?, the library's bytes (= TryPack's when handled) *)
+     handled?, library packs?, the library's bytes (= TryPack's when handled), Msg.Len() with
+     Compress off (the size probe) *)
 | CaseConcrete (h : mhdr) (compress : bool) (qs : list (list N * N * N)) (an ns ex : list crec)
-               (handled lib_ok : bool) (bytes : list N)
+               (handled lib_ok : bool) (bytes : list N) (ulen : N)
 with crec := R (nm : list N) (k : rkind) (ptr ty cls ttl rdlen : N) (steps : body).
 
 Fixpoint bools_eqb (a b : list bool) : bool :=
@@ -144,8 +145,9 @@ Definition check_case (c : case) : bool :=
           | _, _ => false
           end
       end
-  | CaseConcrete h compress qs an ns ex handled lib_ok bytes =>
+  | CaseConcrete h compress qs an ns ex handled lib_ok bytes ulen =>
       let m := msg_of h compress qs an ns ex in
+      (N.of_nat (msg_len name body q_len_c rr_len_c m) =? ulen) &&
       match tp_bytes name body dict (try_pack_c dirty_state m) with
       | Some b => handled && bytes_eqb b bytes
       | None => negb handled
@@ -212,7 +214,7 @@ Definition spec_case (c : case) : bool :=
                  (off1 <=? off + N.of_nat (name_len s)) &&
                  (match cm with None => off1 =? off + (match s with [] => 0 | _ => N.of_nat (name_len s) end) | Some _ => true end)
       else true
-  | CaseConcrete h compress qs an ns ex handled lib_ok bytes =>
-      (* whatever the pooled packer agrees to encode the library encodes *)
-      if handled then lib_ok else true
+  | CaseConcrete h compress qs an ns ex handled lib_ok bytes ulen =>
+      (* whatever the pooled packer agrees to encode the library encodes, and it fits the pool *)
+      if handled then lib_ok && (ulen <=? 4096) && (len bytes <=? ulen) else true
   end.
